@@ -954,3 +954,61 @@ def rule_a6_optdef(ctx):
                'this may-be-absent test looks at only one of isOptional / isDefaulted: DEFAULT components are omitted from encodings '
                'just like absent OPTIONAL ones, so position / completeness logic that forgets one of them mis-places or rejects valid input'
                if not both else 'both kinds considered', node=e)
+
+
+def rule_a6_open(ctx):
+    """A6.open: the open-type resolution pass is the same in the definite and the indefinite record decoder
+    (modulo the end-of-octets idiom and logging)."""
+    fd = ctx.func('codec.ber.decoder.ConstructedPayloadDecoderBase.valueDecoder')
+    fi = ctx.func('codec.ber.decoder.ConstructedPayloadDecoderBase.indefLenValueDecoder')
+
+    def region(f):
+        ifs = [n for n in walk_own(f.node) if isinstance(n, ast.If) and norm(n.test) == 'namedTypes.hasOpenTypes']
+        if len(ifs) != 1:
+            raise AnalysisError('open-type pass not found in %s' % f.short)
+        return ifs[0]
+
+    def actions(node):
+        acts = []
+
+        def rec(stmts):
+            for s in stmts:
+                if isinstance(s, ast.If) and is_log_test(s.test):
+                    continue
+                if isinstance(s, ast.If) and isinstance(s.test, ast.Compare) and isinstance(s.test.ops[0], ast.Is) and \
+                        norm(s.test.comparators[0]).endswith('endOfOctets') and all(isinstance(b, ast.Break) for b in s.body):
+                    continue
+                if isinstance(s, ast.If):
+                    acts.append('if ' + norm(s.test))
+                    rec(s.body)
+                    rec(s.orelse)
+                elif isinstance(s, (ast.For, ast.While)):
+                    head = norm(s.iter) if isinstance(s, ast.For) else norm(s.test)
+                    acts.append('loop ' + head.replace('**dict(options, allowEoo=True)', '**options'))
+                    rec(s.body)
+                elif isinstance(s, ast.Try):
+                    acts.append('try')
+                    rec(s.body)
+                    for h in s.handlers:
+                        acts.append('except ' + norm(h.type))
+                        rec(h.body)
+                else:
+                    acts.append(norm(s).replace('**dict(options, allowEoo=True)', '**options'))
+        rec(node.body)
+        return sorted(acts)
+    ad, ai = actions(region(fd)), actions(region(fi))
+    only_d = [a for a in ad if a not in ai]
+    only_i = [a for a in ai if a not in ad]
+    ctx.ob('A6.open', fi, 'open-type pass takes the same actions as the definite-length decoder', ad == ai,
+           'only in the definite variant: %s | only in the indefinite variant: %s' % (only_d[:4], only_i[:4]) if ad != ai
+           else '%d actions agree' % len(ad))
+    # precedence: caller-supplied map first, then the default map of the component; unknown governing value leaves the raw value
+    for f in (fd, fi):
+        r = region(f)
+        trys = [n for n in ast.walk(r) if isinstance(n, ast.Try)]
+        ok = len(trys) == 2 and 'openTypes[governingValue]' in norm(trys[0].body[0]) and \
+            any('namedType.openType[governingValue]' in norm(b) for h in trys[0].handlers for b in ast.walk(h) if isinstance(b, ast.Assign)) and \
+            any(isinstance(x, ast.Continue) for h in trys[1].handlers for x in ast.walk(h))
+        ctx.ob('A6.open', f, 'caller map overrides the default map; unmapped value keeps the raw octets', ok, '')
+        gate = [n for n in ast.walk(r) if isinstance(n, ast.If) and norm(n.test) == "openTypes or options.get('decodeOpenTypes', False)"]
+        ctx.ob('A6.open', f, 'resolution only when asked for (decodeOpenTypes or a caller map)', len(gate) == 1, '')
